@@ -283,8 +283,8 @@ pub fn run(ctx: &'static Ctx) -> (&'static str, Value, Vec<&'static str>) {
             |(mut st, mut c), d| {
                 for a in MIN_ACC {
                     for t in 0u32..1440 {
-                        let g = eval_fast(&mut c, a, d as u16, t);
-                        if g != Some(expected(a, d, t)) {
+                        let g = guarded(|| eval_fast(&mut c, a, d as u16, t));
+                        if g != Caught::Ret(Some(expected(a, d, t))) {
                             judge(ctx, a, d, t, eval_decode(a, d, t), &mut st);
                         }
                     }
@@ -310,8 +310,8 @@ pub fn run(ctx: &'static Ctx) -> (&'static str, Value, Vec<&'static str>) {
                 for a in [Acc::MsgHeader, Acc::T31Header, Acc::Radial] {
                     let mut t = lo + (d % ms_step);
                     while t < lo + 100_000 {
-                        let g = eval_fast(&mut c, a, d as u16, t);
-                        if g != Some(expected(a, d, t)) {
+                        let g = guarded(|| eval_fast(&mut c, a, d as u16, t));
+                        if g != Caught::Ret(Some(expected(a, d, t))) {
                             judge(ctx, a, d, t, eval_decode(a, d, t), &mut st);
                         }
                         n += 1;
@@ -322,8 +322,8 @@ pub fn run(ctx: &'static Ctx) -> (&'static str, Value, Vec<&'static str>) {
                 let vstep = ms_step * 5;
                 let mut t = lo + (d % vstep);
                 while t < lo + 100_000 {
-                    let g = eval_fast(&mut c, Acc::VolHeader, d as u16, t);
-                    if g != Some(expected(Acc::VolHeader, d, t)) {
+                    let g = guarded(|| eval_fast(&mut c, Acc::VolHeader, d as u16, t));
+                    if g != Caught::Ret(Some(expected(Acc::VolHeader, d, t))) {
                         judge(ctx, Acc::VolHeader, d, t, eval_decode(Acc::VolHeader, d, t), &mut st);
                     }
                     n += 1;
